@@ -127,6 +127,19 @@ def token_spans(data):
     return [m.span() for m in _TOKEN.finditer(data)]
 
 
+_ATOM = re.compile(rb'[^\s=]+')
+
+
+def atom_spans(data):
+    "[(start, end)] of the '='-separated atoms inside tokens that contain '=' (equal-rank groups, name=value)"
+    out = []
+    for m in _TOKEN.finditer(data):
+        if b'=' in m.group():
+            base = m.start()
+            out.extend((base + a.start(), base + a.end()) for a in _ATOM.finditer(m.group()))
+    return out
+
+
 def apply_fault(data, fault, aux=b''):
     "apply one storage fault to data (bytes); aux = bytes of another file (for stale-tail)"
     kind = fault[0]
